@@ -593,7 +593,7 @@ def run_chain_case(ctx):
 
     try:
         energies, res = ctx.lib(_optimize, start, mpo_run, omega=omega, what="optimize_mps",
-                                refusals=("primme", "algo"))
+                                refusals=("primme",))
     finally:
         calls = list(TRACE["calls"])
         sweeps = [dict(s) for s in TRACE["sweeps"]]
